@@ -34,6 +34,9 @@ const EPS_DIRECT: f64 = 1.0e-9;
 const EPS_DERIVED: f64 = 1.0e-6;
 /// NTv2: owner not asserted closer than this to any sub-grid border (cell units of that sub-grid)
 const TAU_CELL: f64 = 1.0e-4;
+/// NTv2: a point at least this far (cells) inside a root grid must be served by the file (rounding of the
+/// limits is < 1e-12 cell)
+const INSIDE_MIN: f64 = 1.0e-9;
 /// NTv2: additional absolute band (radians) around sub-grid borders in which the owner is not
 /// asserted in the list/operator sections. It was 1.05e-6 while finding `ntv2-upper-edge-band-absolute`
 /// (upper-edge tolerance of 1e-6 rad instead of 1e-6 cell) was open; the finding is repaired, so 0.
@@ -148,6 +151,10 @@ struct MGrid {
     cols: usize,
     bands: usize,
     v: Vec<f64>,
+    /// the north / east limit computed with the other plausible rounding order of the unit conversion
+    /// (NTv2: arcsec.to_radians() / 3600 versus (arcsec / 3600).to_radians()); equal to lat_n / lon_e otherwise
+    lat_n_alt: f64,
+    lon_e_alt: f64,
 }
 
 #[derive(Clone, Debug)]
@@ -431,7 +438,7 @@ fn gs_build(s: &GsSpec) -> (String, MGrid) {
         }
     }
     let cv = |x: f64| if linear { x } else { x.to_radians() };
-    let m = MGrid { lat_n: cv(lat_n), lat_s: cv(lat_s), lon_w: cv(lon_w), lon_e: cv(lon_e), dlat: cv(dlat), dlon: cv(dlon), rows, cols, bands, v };
+    let m = MGrid { lat_n: cv(lat_n), lat_s: cv(lat_s), lon_w: cv(lon_w), lon_e: cv(lon_e), dlat: cv(dlat), dlon: cv(dlon), rows, cols, bands, v, lat_n_alt: cv(lat_n), lon_e_alt: cv(lon_e) };
     (t, m)
 }
 
@@ -546,6 +553,8 @@ impl RSub {
             cols: self.cols,
             bands: 2,
             v,
+            lat_n_alt: self.n_lat.to_radians() / 3600.0,
+            lon_e_alt: self.e_lon.to_radians() / 3600.0,
         }
     }
     /// bilinear value of the arcsec arrays at (lat, lon) arcsec (used for consistent child borders)
@@ -920,7 +929,8 @@ impl MNt {
                 }
             }
         }
-        let some_required = self.roots.iter().any(|&r| d0[r] > self.tau(r, TAU_RAD));
+        // a point that is (beyond rounding) inside a root grid is contained by the file, whatever sub-grid serves it
+        let some_required = self.roots.iter().any(|&r| d0[r] >= INSIDE_MIN);
         NtOut { cands, none_ok: !some_required, some_required, near: true, near_rad_only: !near_cell, strict_owner }
     }
     fn cand(&self, i: usize, x: f64, y: f64) -> Cand {
@@ -968,7 +978,7 @@ fn nt_build(s: &NtSpec) -> (Vec<u8>, MNt, Vec<RSub>) {
 
 /// A query, positioned relative to one (sub-)grid of the case. Classes: 0 node, 1 cell interior,
 /// 2 cell border, 3 grid border (exactly), 4 inside the half-cell margin, 5 just outside the margin,
-/// 6 far outside, 7 near a border (+-10^-3..10^-13 cells).
+/// 6 far outside, 7 near a border (+-10^-3..10^-13 cells), 8 on / just inside the north or east edge of a grid without parent.
 #[derive(Clone, Debug, Serialize, Deserialize)]
 struct Q {
     g: u16,
@@ -984,13 +994,13 @@ struct Q {
     t: F,
 }
 
-const CLASS_NAMES: [&str; 8] = ["node", "interior", "cell-border", "grid-border", "margin", "near-outside", "far-outside", "near-border"];
+const CLASS_NAMES: [&str; 9] = ["node", "interior", "cell-border", "grid-border", "margin", "near-outside", "far-outside", "near-border", "root-upper-edge"];
 
 fn q_strategy() -> impl Strategy<Value = Q> {
     (
         any::<u16>(),
         any::<u16>(),
-        prop_oneof![2 => Just(0u8), 4 => Just(1u8), 2 => Just(2u8), 2 => Just(3u8), 3 => Just(4u8), 2 => Just(5u8), 1 => Just(6u8), 3 => Just(7u8)],
+        prop_oneof![2 => Just(0u8), 4 => Just(1u8), 2 => Just(2u8), 2 => Just(3u8), 3 => Just(4u8), 2 => Just(5u8), 1 => Just(6u8), 3 => Just(7u8), 3 => Just(8u8)],
         any::<u16>(),
         any::<u16>(),
         (0.0f64..1.0, 0.0f64..1.0, 0.0f64..1.0),
@@ -1038,6 +1048,19 @@ fn resolve(q: &Q, g: &MGrid) -> (f64, f64) {
             }
         }
         6 => g.place(q.side, 1.4 * fx - 0.2, 3.0 + 47.0 * fy),
+        8 => {
+            // north edge, east edge or north-east corner of a grid without parent: either ON the limit (at most
+            // a few ulp inside it whatever the rounding order of the unit conversion) or 1e-7..1e-5 cell inside
+            let on = q.off.0 < 0.35;
+            let mag = 10f64.powf(-(5.0 + 2.0 * (q.off.0 - 0.35).max(0.0) / 0.65));
+            let yn = if on { g.lat_n.min(g.lat_n_alt).next_down() } else { g.lat_n - mag * g.dlat };
+            let xe = if on { g.lon_e.min(g.lon_e_alt).next_down() } else { g.lon_e - mag * g.dlon };
+            match q.side % 3 {
+                0 => (g.lon_w + (0.02 + 0.96 * fx) * (g.lon_e - g.lon_w), yn),
+                1 => (xe, g.lat_s + (0.02 + 0.96 * fy) * (g.lat_n - g.lat_s)),
+                _ => (xe, yn),
+            }
+        }
         _ => {
             let mag = 10f64.powf(-(3.0 + 10.0 * q.off.0));
             let out = if q.side & 4 != 0 { mag } else { -mag };
@@ -1112,6 +1135,7 @@ impl MItem {
     fn target(&self, q: &Q) -> &MGrid {
         match self {
             MItem::Base(g) => g,
+            MItem::Nt(n) if q.class == 8 => &n.subs[n.roots[pick(q.sub, n.roots.len())]],
             MItem::Nt(n) => &n.subs[pick(q.sub, n.subs.len())],
         }
     }
@@ -1165,10 +1189,11 @@ impl MItem {
             MItem::Nt(n) => {
                 let o = n.lookup(x, y, m);
                 let cands: Vec<Cand> = o.cands.iter().map(|&i| { let mut c = n.cand(i, x, y); c.who = format!("grid #{idx} {}", c.who); c }).collect();
-                if o.near && o.some_required {
-                    *excluded += 1; // registered seam / upper-edge classes: owner not asserted
+                if o.near && !o.some_required && !cands.is_empty() {
+                    *excluded += 1; // within rounding of an outer border: hit not asserted
                 }
-                if o.some_required && !o.near {
+                if o.some_required {
+                    // the hit is certain; near a sub-grid border the value may come from any touching sub-grid
                     (Loc::In, cands)
                 } else if cands.is_empty() {
                     (Loc::Out, cands)
@@ -1378,9 +1403,12 @@ fn check_ntv2(c: &NtCase, rec: &mut Rec) -> CaseResult {
         .join(" | ");
     let mut fails = Fails::default();
     for q in &c.qs {
-        let ti = pick(q.sub, nsub);
+        let ti = if q.class == 8 { m.roots[pick(q.sub, m.roots.len())] } else { pick(q.sub, nsub) };
         let (x, y) = resolve(q, &m.subs[ti]);
         let p = Coor4D::raw(x, y, q.z.0, q.t.0);
+        if q.class == 8 {
+            rec.class(if q.off.0 < 0.35 { "root-upper-edge:on-the-limit" } else { "root-upper-edge:1e-7..1e-5-cell-inside" });
+        }
         let ctx = || format!("NTv2 spec {}\nsub-grids (arcsec, lon east-positive; file order {:?}): {tree}\nquery class {} relative to '{}' at (lon={x:?}, lat={y:?}) rad = ({}\", {}\")", json(&c.f), file_order(nsub, c.f.order_seed), CLASS_NAMES[q.class as usize], m.names[ti], x.to_degrees() * 3600.0, y.to_degrees() * 3600.0);
         for margin in [0.0, 0.5] {
             let o = m.lookup(x, y, margin);
@@ -1399,8 +1427,13 @@ fn check_ntv2(c: &NtCase, rec: &mut Rec) -> CaseResult {
             rec.class(label);
             match &got {
                 None => {
-                    if o.some_required {
-                        let key = if o.near { "ntv2-none-inside-root-at-subgrid-seam" } else { "ntv2-none-inside" };
+                    // class 8 is, by construction, on or inside the north/east limit of a root grid
+                    if o.some_required || q.class == 8 {
+                        let root_upper = m.roots.iter().any(|&r| {
+                            let g = &m.subs[r];
+                            g.dist_in(x, y, 0.0) > -TAU_CELL && ((g.lat_n - y) / g.dlat < TAU_CELL || (g.lon_e - x) / g.dlon < TAU_CELL)
+                        });
+                        let key = if q.class == 8 || root_upper { "ntv2-none-at-root-upper-edge" } else if o.near { "ntv2-none-inside-root-at-subgrid-seam" } else { "ntv2-none-inside" };
                         fails.push(key, format!("Ntv2Grid::at(margin {margin}) = None (contains = {cont}) for a point inside the file's coverage; acceptable owners: {}\n{}", fmt_cands(&cands, 2), ctx()));
                     }
                 }
@@ -1433,6 +1466,9 @@ fn check_ntv2(c: &NtCase, rec: &mut Rec) -> CaseResult {
                         fails.push(key, format!("Ntv2Grid::at(margin {margin}) = {:?} (lon, lat shift rad); acceptable: {}; value equals interpolation in {}; tolerance {REL} x max|corner|\n{}", &v[..2], fmt_cands(&cands, 2), other.map(|i| format!("sub-grid '{}'", m.names[i])).unwrap_or("no sub-grid of the file".into()), ctx()));
                     }
                 }
+            }
+            if q.class == 8 && !cont {
+                fails.push("ntv2-none-at-root-upper-edge", format!("Ntv2Grid::contains(margin {margin}) = false for a point on / just inside the north or east limit of root grid '{}'\n{}", m.names[ti], ctx()));
             }
             if cont != got.is_some() && !o.near {
                 fails.push("ntv2-at-contains-disagree", format!("contains = {cont} but at = {got:?} (margin {margin})\n{}", ctx()));
@@ -1582,7 +1618,7 @@ fn check_list(c: &ListCase, rec: &mut Rec) -> CaseResult {
             }
         }
     }
-    rec.count("excluded_known_ntv2_border_bands", excluded);
+    rec.count("ntv2_outer_border_hit_not_asserted", excluded);
     fails.finish()
 }
 
@@ -1623,6 +1659,10 @@ struct OpCase {
     t_epoch: Option<F>,
     ellps: u8,
     qs: Vec<Q>,
+    /// Plain backend only: the grid files are written AFTER a first instantiation (same context) that named
+    /// them, as optional grids, while they did not exist yet
+    #[serde(default)]
+    late: bool,
 }
 
 const ELLPS: [(&str, f64, f64); 3] = [("GRS80", 6378137.0, 298.257222100882711243), ("intl", 6378388.0, 297.0), ("WGS84", 6378137.0, 298.257223563)];
@@ -1677,7 +1717,46 @@ fn rot_enu(v: &[f64], lon: f64, lat: f64) -> [f64; 3] {
 }
 
 fn check_op(c: &OpCase, backend: Backend, rec: &mut Rec) -> CaseResult {
-    let built: Vec<Built> = c.items.iter().enumerate().map(|(i, it)| build_item(it, i)).collect();
+    let late = c.late && backend == Backend::Plain;
+    if !late {
+        return check_op_inner(c, backend, rec, "");
+    }
+    // unique file names per case: a name is absent when the case starts, whatever ran before in this process
+    let prefix = format!("L{:012x}_", hash_bytes(json(c).as_bytes()) & 0xffff_ffff_ffff);
+    let remove = || {
+        if let Some(root) = SCRATCH.get() {
+            for (i, it) in c.items.iter().enumerate() {
+                let name = format!("{prefix}{}", build_item(it, i).name);
+                let ext = std::path::Path::new(&name).extension().and_then(|e| e.to_str()).unwrap_or("").to_string();
+                let _ = std::fs::remove_file(root.join("geodesy").join(ext).join(&name));
+            }
+        }
+    };
+    remove();
+    let r = check_op_inner(c, backend, rec, &prefix);
+    remove();
+    match r {
+        Err(f) if !f.key.starts_with("harness-") => {
+            // is the late appearance of the files the cause? the same case with the files in place from the start:
+            let mut scratch = Rec::default();
+            match check_op_inner(c, backend, &mut scratch, "") {
+                Ok(()) => Err(Failure {
+                    key: format!("plain-late-grid-file/{}", f.key),
+                    msg: format!("The grid files were written after a first instantiation, in the same Plain context, of the same operator with every grid marked '@' while the files did not exist yet (unique names '{prefix}...'); the operator instantiated afterwards does not behave as the one instantiated when the files are there from the start (that passes):\n{}", f.msg),
+                }),
+                Err(_) => Err(f),
+            }
+        }
+        r => r,
+    }
+}
+
+fn check_op_inner(c: &OpCase, backend: Backend, rec: &mut Rec, prefix: &str) -> CaseResult {
+    let late = !prefix.is_empty();
+    let mut built: Vec<Built> = c.items.iter().enumerate().map(|(i, it)| build_item(it, i)).collect();
+    for b in built.iter_mut() {
+        b.name = format!("{prefix}{}", b.name);
+    }
     let opname = ["gridshift", "deformation", "deflection"][c.op as usize % 3];
     // ---- the definition
     let ext = match built[0].model.bands() {
@@ -1686,6 +1765,7 @@ fn check_op(c: &OpCase, backend: Backend, rec: &mut Rec) -> CaseResult {
         _ => "deformation",
     };
     let mut names = vec![];
+    let mut probe_names: Vec<String> = vec![];
     let mut active: Vec<usize> = vec![];
     let mut must_fail = false;
     let mut n_missing = 0;
@@ -1693,15 +1773,18 @@ fn check_op(c: &OpCase, backend: Backend, rec: &mut Rec) -> CaseResult {
         let at = if e.optional { "@" } else { "" };
         if e.item >= 0 {
             names.push(format!("{at}{}", built[e.item as usize].name));
+            probe_names.push(format!("@{}", built[e.item as usize].name));
             active.push(e.item as usize);
         } else {
             names.push(format!("{at}missing_{k}.{}", if k % 2 == 0 { ext } else { "gsb" }));
+            probe_names.push(format!("@missing_{k}.{}", if k % 2 == 0 { ext } else { "gsb" }));
             n_missing += 1;
             must_fail |= !e.optional;
         }
     }
     if c.null {
         names.push("@null".into());
+        probe_names.push("@null".into());
     }
     let mut def = format!("{opname} grids={}", names.join(","));
     if c.op == 1 {
@@ -1740,12 +1823,23 @@ fn check_op(c: &OpCase, backend: Backend, rec: &mut Rec) -> CaseResult {
             AnyCtx::Mem(g)
         }
         Backend::Plain => {
+            let mut plain = AnyCtx::Plain(Plain::new());
+            if late {
+                // first instantiation: every grid optional, none of the files exists yet
+                let probe = def.replacen(&names.join(","), &probe_names.join(","), 1);
+                match plain.op(&probe) {
+                    Err(p) => vfail!(format!("panic-instantiate@{}", p.sig()), "'{probe}' panics at instantiation: {} at {}:{}", p.msg, p.file, p.line),
+                    Ok(Err(e)) => vfail!("optional-missing-grid-blocks-instantiation", "'{probe}': every grid is optional ('@') and no file exists, yet instantiation fails: {e:?}"),
+                    Ok(Ok(_)) => {}
+                }
+                rec.class("files-written-after-first-instantiation");
+            }
             for b in &built {
                 if let Err(e) = plain_serve(&b.name, &b.bytes) {
                     return Err(Failure { key: "harness-scratch-io".into(), msg: format!("cannot write grid file: {e}") });
                 }
             }
-            AnyCtx::Plain(Plain::new())
+            plain
         }
     };
     let listing = describe_items(&c.items, &built);
@@ -1975,7 +2069,7 @@ fn check_op(c: &OpCase, backend: Backend, rec: &mut Rec) -> CaseResult {
         let reg = c.op % 3 == 2 && c.null;
         fails.push(if reg { "deflection-null-grid-ignored" } else { "success-count" }, format!("'{def}' ({dir_txt}) reports {count} successes, expected between {count_lo} and {count_hi} of {} tuples\n{listing}\ninput {:?}\noutput {:?}", data.len(), input, data));
     }
-    rec.count("excluded_known_ntv2_border_bands", excluded);
+    rec.count("ntv2_outer_border_hit_not_asserted", excluded);
     rec.count("tuples", data.len() as u64);
     fails.finish()
 }
@@ -2019,11 +2113,11 @@ fn op_case() -> impl Strategy<Value = OpCase> {
             prop::collection::vec((any::<u16>(), prop::bool::weighted(0.9)), 0..=2), // missing names: position, optional
             prop::collection::vec(prop::bool::weighted(0.3), 3),                     // '@' on existing grids
             prop::bool::weighted(0.06),                                              // drop every existing grid (only missing optional ones remain)
-            (prop::bool::weighted(0.3), any::<bool>(), prop::bool::weighted(0.2), prop::bool::weighted(0.25)),
+            (prop::bool::weighted(0.3), any::<bool>(), prop::bool::weighted(0.2), prop::bool::weighted(0.25), prop::bool::weighted(0.4)),
             (prop_oneof![-50.0f64..-0.5, 0.5f64..100.0], 1990.0f64..2030.0, 0u8..3, 0u8..3),
             prop::collection::vec(q_strategy(), 6..=16),
         )
-            .prop_map(move |(items, missing, opt, drop_all, (null, inverse, inv_flag, raw), (dt, t0, tmode, ellps), qs)| {
+            .prop_map(move |(items, missing, opt, drop_all, (null, inverse, inv_flag, raw, late), (dt, t0, tmode, ellps), qs)| {
                 let mut entries: Vec<Entry> = if drop_all { vec![] } else { (0..items.len()).map(|i| Entry { item: i as i8, optional: opt[i] }).collect() };
                 let mut missing = missing;
                 if drop_all && missing.is_empty() {
@@ -2038,7 +2132,7 @@ fn op_case() -> impl Strategy<Value = OpCase> {
                     1 => (None, Some(F((t0 * 4.0).round() / 4.0))),
                     _ => (Some(F((dt * 4.0).round() / 4.0)), Some(F((t0 * 4.0).round() / 4.0))),
                 };
-                OpCase { op, items, entries, null, inverse, inv_flag, raw, dt, t_epoch, ellps, qs }
+                OpCase { op, items, entries, null, inverse, inv_flag, raw, dt, t_epoch, ellps, qs, late }
             })
     })
 }
@@ -2083,7 +2177,7 @@ fn gravsoft_model(text: &str) -> MGrid {
         }
     }
     let cv = |x: f64| if linear { x } else { x.to_radians() };
-    MGrid { lat_n: cv(lat_n), lat_s: cv(lat_s), lon_w: cv(lon_w), lon_e: cv(lon_e), dlat: cv(dlat), dlon: cv(dlon), rows, cols, bands, v }
+    MGrid { lat_n: cv(lat_n), lat_s: cv(lat_s), lon_w: cv(lon_w), lon_e: cv(lon_e), dlat: cv(dlat), dlon: cv(dlon), rows, cols, bands, v, lat_n_alt: cv(lat_n), lon_e_alt: cv(lon_e) }
 }
 
 #[derive(Clone, Debug, Serialize, Deserialize)]
@@ -2219,6 +2313,8 @@ fn main() {
     run.assume("Gravsoft conventions from src/grid/mod.rs comments and Rumination 002 'gridshift' Units: header lat_s lat_n lon_w lon_e dlat dlon in degrees; 2 bands = (lat, lon) arcsec -> internal (lon, lat) rad; 3 bands = (north, east, up) mm/yr -> (east, north, up) m/yr; 1 band = metres; any |bound| > 720 ('larger than 2x360'): linear grid, header and values untouched (band order of linear grids = file order, as 'kept unchanged'); bounds of exactly +-720 or anywhere inside are angular; queries use the longitude convention of the grid header (the library does not wrap).");
     run.assume("NTv2 conventions (parser comments, NTv2 spec, checked in selftest against ntv2_cvt values quoted in the repository test and by re-encoding the three shipped .gsb files byte for byte): bounds/increments in arcsec, longitudes and longitude shifts positive WEST, nodes from the south-east corner westwards then northwards, record = lat shift, lon shift, 2 accuracies; delivered value = (lon shift east-positive, lat shift) rad.");
     run.assume("NTv2 owner = deepest sub-grid containing the point; not asserted closer than 1e-4 cell to any sub-grid border (DESIGN S), there the result must equal the interpolation in one of the sub-grids touching the point (continuity only) and must be Some when the point is strictly inside a root grid. Outside all roots: any root within the margin. Sibling sub-grids never overlap (NTv2 spec); generated trees obey that.");
+    run.assume("A point that is inside a ROOT grid of an NTv2 file by more than rounding (>= 1e-9 cell; the limits are reproduced to < 1e-12 cell) is contained by the file at margin 0 whichever sub-grid serves it: Some/contains is asserted there, in lists the hit is certain (value = any touching sub-grid). Query class 'root-upper-edge' puts points ON the north/east limit and NE corner of root grids (the smaller of the two plausible roundings of the limit, stepped one ulp inwards, so never outside under either) and 1e-7..1e-5 cell inside; the repository's own test (on_root_upper_lat/lon) and 'on the border qualifies as within' say such points belong to the root grid.");
+    run.assume("Plain from files: an operator instantiated while a named grid file exists uses it, also when an earlier instantiation in the same context named the (then absent) file as '@optional' (Rumination 002: optional grids do not block instantiation 'if they are unavailable'; nothing makes unavailability permanent). Cases of this kind use file names unique to the case and remove them afterwards; a failure is attributed to the late appearance only if the same case passes with the files in place from the start (key prefix plain-late-grid-file/).");
     run.assume("grids_at doc comment: slice order, first hit with margin 0, then first hit with margin 0.5, else origin if use_null_grid else None.");
     run.assume("Operator conventions from Rumination 002: gridshift forward ADDS 2-band datum shifts to (lon, lat) and SUBTRACTS the 1-band geoid height from the third element, inverse the opposite (2-band inverse asserted as r + shift(r) = operand, only further than 6 x max shift from every border and only for grids whose steepest node-to-node change is below 0.05 of the cell size (the library's 10 fixed-point iterations then reach its 1e-12 criterion; non-convergence is candidate 17 / C10); never for linear grids where the 1e-12 convergence test is in grid units); '@' = optional, missing non-optional grid => Err at instantiation; '@null' last => outside points pass unchanged and count; otherwise outside points are NaN-marked and not counted. Inverse gridshift outside coverage: only the count is checked (candidate 17 belongs to C10).");
     run.assume("deformation (Rumination 002 eq. 1-3 + parameter table): forward X' = X - d R V, inverse X + d R V (sign reversion, no iteration), raw => (correction, |correction|), d = dt if given else T1 - T0 = tuple epoch - t_epoch; R = textbook ENU->XYZ rotation at the geographic position of X on the operator's ellipsoid (harness supplies X = cartesian(lon, lat, h) and uses (lon, lat) directly; the library's own conversion differs by < 1e-11 rad, covered by a 1e-6 cell knife-edge band).");
@@ -2235,7 +2331,7 @@ fn main() {
     let n = run.scale(12_000, 300_000);
     run.section(
         "ntv2-at",
-        "random NTv2 files (1-2 roots, up to 5 nested children to depth 3, refinement 2..5, both byte orders, random file order, with/without END record; values independent / consistent on borders / one affine field); 12..32 queries positioned relative to a random sub-grid x margins {0, 0.5}; Ntv2Grid::at/contains against deepest-sub-grid reference; non-trivial = definite owner that is a child, or a root cell with distinct corners",
+        "random NTv2 files (1-2 roots, up to 5 nested children to depth 3, refinement 2..5, both byte orders, random file order, with/without END record; values independent / consistent on borders / one affine field); 12..32 queries positioned relative to a random sub-grid (plus points on / 1e-7..1e-5 cell inside the north and east limits and the NE corner of root grids) x margins {0, 0.5}; Ntv2Grid::at/contains against deepest-sub-grid reference; non-trivial = definite owner that is a child, or a root cell with distinct corners",
         n,
         nt_case,
         check_ntv2,
@@ -2259,7 +2355,7 @@ fn main() {
     let n = run.scale(1500, 30_000);
     run.section(
         "operators-plain",
-        "the same operator cases through Plain::new() reading the generated files from ./geodesy/<ext>/<name> in a scratch working directory (unique content-hashed names, Plain::clear_grids after each case)",
+        "the same operator cases through Plain::new() reading the generated files from ./geodesy/<ext>/<name> in a scratch working directory (unique content-hashed names, Plain::clear_grids after each case); in 40 % of the cases the files are written only after a first instantiation, in the same context, that named them as optional grids while absent (names unique to the case)",
         n,
         op_case,
         |c: &OpCase, rec: &mut Rec| check_op(c, Backend::Plain, rec),
